@@ -159,6 +159,69 @@ theorem add_sub_cancel (w : Bool) (a b : Scr ℝ) (h : tmEq b.frame a.frame) :
   obtain ⟨⟨b1, b2, b3⟩, ⟨b4, b5, b6⟩⟩ := b.data
   m3ring
 
+/-- (a + b) − b = a also when the operands live in different frames: both operators re-express `b` in the left operand's
+    frame (which the sum keeps), so the same vector is added and taken away — whatever `change` computes -/
+theorem add_sub_cancel_mixed (w : Bool) (a b : Scr ℝ) :
+    (subObj w (addObj w a b) b).data = a.data ∧ (subObj w (addObj w a b) b).frame = a.frame := by
+  by_cases h : tmEq b.frame a.frame
+  · have h1 : (addObj w a b) = ⟨a.data + b.data, a.frame⟩ := by unfold addObj; rw [if_pos h]
+    unfold subObj
+    rw [h1, if_pos h]
+    refine ⟨?_, rfl⟩
+    obtain ⟨⟨a1, a2, a3⟩, ⟨a4, a5, a6⟩⟩ := a.data
+    obtain ⟨⟨b1, b2, b3⟩, ⟨b4, b5, b6⟩⟩ := b.data
+    m3ring
+  · have h1 : (addObj w a b) = ⟨a.data + (change w b a.frame).data, a.frame⟩ := by unfold addObj; rw [if_neg h]
+    unfold subObj
+    rw [h1, if_neg h]
+    refine ⟨?_, rfl⟩
+    obtain ⟨⟨a1, a2, a3⟩, ⟨a4, a5, a6⟩⟩ := a.data
+    obtain ⟨⟨b1, b2, b3⟩, ⟨b4, b5, b6⟩⟩ := (change w b a.frame).data
+    m3ring
+
+/-- …and (a − b) + b = a, in any pair of frames -/
+theorem sub_add_cancel_mixed (w : Bool) (a b : Scr ℝ) :
+    (addObj w (subObj w a b) b).data = a.data ∧ (addObj w (subObj w a b) b).frame = a.frame := by
+  by_cases h : tmEq b.frame a.frame
+  · have h1 : (subObj w a b) = ⟨a.data - b.data, a.frame⟩ := by unfold subObj; rw [if_pos h]
+    unfold addObj
+    rw [h1, if_pos h]
+    refine ⟨?_, rfl⟩
+    obtain ⟨⟨a1, a2, a3⟩, ⟨a4, a5, a6⟩⟩ := a.data
+    obtain ⟨⟨b1, b2, b3⟩, ⟨b4, b5, b6⟩⟩ := b.data
+    m3ring
+  · have h1 : (subObj w a b) = ⟨a.data - (change w b a.frame).data, a.frame⟩ := by unfold subObj; rw [if_neg h]
+    unfold addObj
+    rw [h1, if_neg h]
+    refine ⟨?_, rfl⟩
+    obtain ⟨⟨a1, a2, a3⟩, ⟨a4, a5, a6⟩⟩ := a.data
+    obtain ⟨⟨b1, b2, b3⟩, ⟨b4, b5, b6⟩⟩ := (change w b a.frame).data
+    m3ring
+
+/-- array operands (6-array / 6×1 array): (a + v) − v = a and v − a = −(a − v), frame kept -/
+theorem arr_add_sub_cancel (a : Scr ℝ) (v : V6 ℝ) : subArr (addArr a v) v = a := by
+  obtain ⟨⟨⟨a1, a2, a3⟩, ⟨a4, a5, a6⟩⟩, fr⟩ := a
+  obtain ⟨⟨v1, v2, v3⟩, ⟨v4, v5, v6⟩⟩ := v
+  simp only [subArr, addArr]
+  m3ring
+
+theorem arr_rsub_eq_neg_sub (a : Scr ℝ) (v : V6 ℝ) :
+    (rsubArr a v).data = V6.smul (-1) (subArr a v).data ∧ (rsubArr a v).frame = a.frame := by
+  obtain ⟨⟨⟨a1, a2, a3⟩, ⟨a4, a5, a6⟩⟩, fr⟩ := a
+  obtain ⟨⟨v1, v2, v3⟩, ⟨v4, v5, v6⟩⟩ := v
+  refine ⟨?_, rfl⟩
+  simp only [rsubArr, subArr]
+  m3ring
+
+/-- non-vacuity: two objects in frames that differ (translation by 1) take the mixed-frame branch -/
+example : ¬ tmEq (ofTAA (⟨⟨1, 0, 0⟩, ⟨0, 0, 0⟩⟩ : V6 ℝ)) (ofTAA (⟨⟨0, 0, 0⟩, ⟨0, 0, 0⟩⟩ : V6 ℝ)) := by
+  unfold tmEq
+  simp only [ofTAA]
+  intro h
+  have := h.1
+  simp only [sabs_real', sci_real] at this
+  norm_num at this
+
 theorem sub_scalar_eq_add_neg (a : Scr ℝ) (s : ℝ) : subScalar a s = addScalar a (-s) := by
   obtain ⟨⟨⟨a1, a2, a3⟩, ⟨a4, a5, a6⟩⟩, fr⟩ := a
   simp only [subScalar, addScalar, v6const]
